@@ -150,7 +150,10 @@ class Oracle:
         subj = _subject(doc.url, prev)
         sim.check("publishTime-monotone")
         if m.publish_us is not None and p.publish_us is not None and m.publish_us < p.publish_us:
-            sim.violate("publishTime-backward", subj,
+            # regime: a symbolic start resolved to a later instant between the two manifests (the publishTime grid
+            # AST + k * minimumUpdatePeriod is re-anchored) - C08's open finding "ast-changed", seen from here
+            regime = "/ast-changed" if (m.ast_us is not None and p.ast_us is not None and m.ast_us > p.ast_us) else ""
+            sim.violate("publishTime-backward", subj + regime,
                         f"publishTime {p.attrib.get('publishTime')} -> {m.attrib.get('publishTime')} "
                         f"(fetched {prev.fetched_us} -> {doc.fetched_us}) {doc.url}")
         sim.check("ast-monotone")
